@@ -45,13 +45,14 @@ Len1  == {"one", "expr", "semi", "cmt", "badone", "star", "asg", "echo", "prn", 
 ShapeLen(s)  == CASE s \in Len1 -> 1
                   [] s \in {"ml2", "mlx2", "cmp2", "trunc2", "pair2"} -> 2
                   [] s = "f9" -> 4                             \* if / body / column-0 comment / else  (known finding F9)
-                  [] OTHER -> 3                               \* ml3 tri3 cmp3 deco3 braw3 f10
+                  [] OTHER -> 3                               \* ml3 tri3 cmp3 deco3 braw3 f10 mlb3
 ShapeCont(s) == CASE s \in {"ml2", "mlx2", "f10"} -> 1            \* f10: backslash-continued compound header (known finding F10)
-                  [] s \in {"ml3", "tri3", "braw3"} -> 2
+                  [] s \in {"ml3", "tri3", "braw3", "mlb3"} -> 2  \* mlb3: a bracketed statement with an EMPTY line inside
                   [] s = "trunc2" -> 99                       \* never balanced
                   [] OTHER -> 0
 ShapeExpr(s) == s \in {"expr", "semi", "mlx2", "echo", "prn", "exc"}
 InnerKind(s, style) == IF s \in {"tri3", "braw3"} THEN "raw" ELSE IF style = "a" THEN "p1" ELSE "p2"
+InnerKindAt(s, style, j) == IF s = "mlb3" /\ j = 2 THEN "blank" ELSE InnerKind(s, style)
 
 \* lines of the statement block b with ghost id
 StmtLines(b, id) ==
@@ -61,7 +62,7 @@ StmtLines(b, id) ==
                 IF j = 1
                 THEN Ln("p1", b.ind, id, ShapeCont(b.shape), b.shape = "tri3", TRUE, ShapeExpr(b.shape), b.shape = "semi",
                         b.shape = "cmt", IF dirAt = 1 THEN 1 ELSE 0, b.shape = "badone")
-                ELSE Ln(InnerKind(b.shape, b.style), b.ind, id, 0, FALSE,
+                ELSE Ln(InnerKindAt(b.shape, b.style, j), IF b.shape = "mlb3" /\ j = 2 THEN 0 ELSE b.ind, id, 0, FALSE,
                         b.shape = "pair2",      \* pair2: a second statement written on a "..." line
                         FALSE, FALSE, FALSE, IF dirAt = j THEN 1 ELSE 0, FALSE)]
   IN IF b.style = "t" THEN Append(body, Plain("bare", b.ind, id)) ELSE body
@@ -371,7 +372,11 @@ EvalPartsSingleStatement == (Done /\ WellFormed) =>
   \A x \in 1..Len(parts) : (parts[x].t = "code" /\ parts[x].mode = "eval") =>
      Cardinality({j \in parts[x].a..parts[x].b : lines[j].first}) = 1
 \* well-formed building blocks never produce a parse error (C01 "well formed docstring")
-NoSpuriousError == (pc = "done" /\ WellFormed /\ err # "none") =>
+\* known finding F21: an EMPTY line inside a bracketed statement that goes on with "..." lines: the empty line is labelled source,
+\* the old-style isolation rule of the grouping then starts a new group at it and the statement is cut in two; when a want follows,
+\* the groups are not merged again and the docstring cannot be parsed
+HasF21(ls) == \E j \in 1..(Len(ls) - 1) : ls[j].k = "blank" /\ ls[j].sid # 0 /\ ls[j + 1].k \in {"p2", "bare"} /\ ls[j + 1].sid = ls[j].sid
+NoSpuriousError == (pc = "done" /\ WellFormed /\ err # "none" /\ ~HasF21(IF round = 2 THEN lines1 ELSE lines)) =>
   \E j \in 1..Len(lines) : lines[j].bad \/ lines[j].cont > 9 \/ (lines[j].k = "p2" /\ lines[j].sid = 0) \/   \* "... text" is read as code
                             (lines[j].k = "raw" /\ ~(\E s \in 1..j : lines[s].tq /\ lines[s].sid = lines[j].sid))
 
